@@ -429,7 +429,7 @@ Proof.
       apply negb_true_iff in E0. unfold has in E0. destruct (get i (insts s0)) eqn:Ei; [discriminate|].
       intros j x' y' Ex' Ey' Hh. unfold obs_step in Ey'. cbn [fst snd] in Ey'.
       apply refresh_get_hb in Ey'. destruct Ey' as (y1 & Ey1 & Hhb).
-      cbn [insts oi RecordSet.set eta_sys eta_obs] in Ex', Ey1. rewrite get_set in Ex'. rewrite get_set in Ey1.
+      unfold set_stage in Ex'. cbn [insts oi RecordSet.set eta_sys eta_obs] in Ex', Ey1. rewrite get_set in Ex'. rewrite get_set in Ey1.
       destruct (N.eqb_spec i j).
       * injection Ey1 as <-. rewrite Hhb in Hh. discriminate Hh.
       * apply (HH0 j x' y1 Ex' Ey1). congruence.
